@@ -84,20 +84,20 @@ func b01(x bool) string {
 
 // H1Msg is one message as read by the real codec (body read to its end).
 type H1Msg struct {
-	Req                  bool
-	Method, URI          string
-	Major, Minor         int
-	Code                 int
-	Status, Host         string
-	Chunked              bool
-	CL                   int64
-	Close                bool
-	Header, Trailer      http.Header
-	Decl                 string
-	Body                 []byte
-	Class                string // ok | incomplete | malformed
-	Request              *http.Request
-	Response             *http.Response
+	Req             bool
+	Method, URI     string
+	Major, Minor    int
+	Code            int
+	Status, Host    string
+	Chunked         bool
+	CL              int64
+	Close           bool
+	Header, Trailer http.Header
+	Decl            string
+	Body            []byte
+	Class           string // ok | incomplete | malformed
+	Request         *http.Request
+	Response        *http.Response
 }
 
 func (m *H1Msg) Line(left int) string {
